@@ -9,6 +9,7 @@ import (
 	"sort"
 	"strconv"
 	"strings"
+	"sync"
 	"time"
 
 	"govc/vc"
@@ -164,13 +165,26 @@ func check(args []string) {
 		}
 		res := vc.Discharge(rep.Unit.Obls, scratch, timeout, *workers)
 		// retry ladder for undecided obligations: larger budget before anything is reported
+		var wg sync.WaitGroup
+		sem := make(chan struct{}, 4)
+		nretry := 0
 		for i := range res {
-			if !res[i].OK && (res[i].V.Status == "timeout" || res[i].V.Status == "unknown") {
-				v := vc.RunQuery(res[i].O.Script(nil), scratch, fmt.Sprintf("retry%04d", i), timeout*4, vc.Solvers)
-				res[i].V = v
-				res[i].OK = v.Status == res[i].O.Expect
+			if !res[i].OK && (res[i].V.Status == "timeout" || res[i].V.Status == "unknown") && nretry < 12 {
+				nretry++
+				i := i
+				script := res[i].O.Script(nil)
+				wg.Add(1)
+				go func() {
+					defer wg.Done()
+					sem <- struct{}{}
+					defer func() { <-sem }()
+					v := vc.RunQuery(script, scratch, fmt.Sprintf("retry%s%04d", sanitize(rep.Key)[len(sanitize(rep.Key))-8:], i), timeout*3, vc.Solvers)
+					res[i].V = v
+					res[i].OK = v.Status == res[i].O.Expect
+				}()
 			}
 		}
+		wg.Wait()
 		ok := 0
 		for _, r := range res {
 			if r.OK {
